@@ -1,16 +1,24 @@
 (** Correspondence record for C17: a build script, candidate names, the built
     tree as dumped from the real objects, and for every name what
     [coll[name]] / [coll.configuration(name)] gave. *)
-From InvokeVerif Require Export Model.CollModel Spec.C17Spec.
+From InvokeVerif Require Export Model.CollModel Model.CollHist Spec.C17Spec.
 
 Record case := mk {
   c_script : item;
   c_names : list string;
   c_state : result coll;                      (* dump of the real Collection tree *)
   c_obs : list (result (nat * tree));         (* per name: (task id, configuration) *)
-  c_body : list (result (nat * tree))         (* per name: what the task body saw as its
+  c_body : list (result (nat * tree));        (* per name: what the task body saw as its
                                                  context's config when the name was executed
                                                  (Executor, empty Config): (task id, deep view) *)
+  (* build-history cases: the tree was NOT built by [c_script] but by replaying [h] (one module object
+     with an explicit namespace mounted several times, configure() calls in between); [c_script] then is
+     the harness's flattened expectation (every mount a collection of its own: namespace configuration at
+     the moment of the mount + config= + the configure() calls on that very mount), [c_nsscript] the same
+     for the module's own namespace object and [c_modns] the dump of that object after the history *)
+  c_hist : option hist;
+  c_nsscript : option item;
+  c_modns : option coll
 }.
 
 Definition obs_equiv (a b : result (nat * tree)) : bool :=
@@ -26,14 +34,32 @@ Definition model_obs (c : coll) (name : string) : result (nat * tree) :=
   | Err e => Err e
   end.
 
+(** the tree the model builds: by replaying the history if there is one *)
+Definition model_tree (c : case) : result coll :=
+  match c_hist c with
+  | Some h => match run_hist h with Ok st => Ok (hs_root st) | Err e => Err e end
+  | None => build (c_script c)
+  end.
+
 Definition corr (c : case) : bool :=
-  match build (c_script c), c_state c with
+  match model_tree c, c_state c with
   | Err e1, Err e2 => err_eqb e1 e2
   | Ok m, Ok s =>
       coll_eqb m s &&
       list_eqb obs_equiv (map (model_obs m) (c_names c)) (c_obs c) &&
       (* with an otherwise empty Config the body's view is the collection level *)
-      list_eqb obs_equiv (map (model_obs m) (c_names c)) (c_body c)
+      list_eqb obs_equiv (map (model_obs m) (c_names c)) (c_body c) &&
+      match c_hist c with
+      | None => true
+      | Some h =>
+          (* the module's own namespace object after the history *)
+          match run_hist h, c_modns c with
+          | Ok st, Some n => coll_eqb (hs_ns st) n
+          | _, _ => false
+          end &&
+          (* (tested, not proved: the flattened script builds the same tree) *)
+          match build (c_script c) with Ok f => coll_eqb f s | Err _ => false end
+      end
   | _, _ => false
   end.
 
@@ -49,6 +75,11 @@ Definition spec (c : case) : bool :=
   match c_state c with
   | Ok s => (if ns_wf s then cfg_match (c_script c) s else true) &&
             all2 (spec_ok s) (c_names c) (c_obs c) && all2 (spec_ok s) (c_names c) (c_body c) &&
-            spelling_invariant (c_names c) (c_obs c) && spelling_invariant (c_names c) (c_body c)
+            spelling_invariant (c_names c) (c_obs c) && spelling_invariant (c_names c) (c_body c) &&
+            (* the module's own namespace object holds what was configured on IT: nothing of its mounts *)
+            match c_nsscript c, c_modns c with
+            | Some it, Some n => if ns_wf n then cfg_match it n else true
+            | _, _ => true
+            end
   | Err _ => true
   end.
